@@ -73,6 +73,23 @@ func (w *World) Client() kubernetes.Interface {
 		e.Err = "notfound"
 		return true, nil, apierrors.NewNotFound(nodeGR, name)
 	})
+	// direct (uncached) list calls: escalator does not make them today, but the API server answers them
+	cs.AddReactor("list", "nodes", func(a k8stesting.Action) (bool, runtime.Object, error) {
+		w.log(Entry{Op: OpK8sList, Target: "nodes"})
+		out := &v1.NodeList{}
+		for _, n := range w.Nodes {
+			out.Items = append(out.Items, *n.DeepCopy())
+		}
+		return true, out, nil
+	})
+	cs.AddReactor("list", "pods", func(a k8stesting.Action) (bool, runtime.Object, error) {
+		w.log(Entry{Op: OpK8sList, Target: "pods"})
+		out := &v1.PodList{}
+		for _, p := range w.Pods {
+			out.Items = append(out.Items, *p.DeepCopy())
+		}
+		return true, out, nil
+	})
 	cs.AddReactor("*", "*", func(a k8stesting.Action) (bool, runtime.Object, error) {
 		w.log(Entry{Op: "k8s.other", Target: a.GetVerb() + " " + a.GetResource().Resource, Err: "unexpected"})
 		return true, nil, errors.New("unexpected kubernetes call")
